@@ -48,6 +48,29 @@ def runMac (_prop : String) (f : List String) (obsS : String) : Verdict :=
         | inv :: is', o :: os' =>
           if inv == "SET" then go (i + 1) is' os' ("set" :: mp) v ("late-set" :: tg) configured else
           match inv.splitOn "/" with
+          | ["nest", k, vS, _, s] =>
+            -- statsd_gauge!(key, { statsd_count!("inner.calls", 1); v }): the inner invocation is complete
+            -- (sent, accepted) before the outer one sends
+            let sink := if s == "a" then SinkOut.accept else SinkOut.refuse ((s.drop 1).toString.toNat?.getD 0)
+            match entryOf "count_i64", entryOf "gauge_u64" with
+            | some ec, some eg =>
+              match parseArg ec "1", parseArg eg vS with
+              | some a1, some ag =>
+                match macroTrace global ec "inner.calls".toUTF8.toList a1 [] .accept (i + 1),
+                      macroTrace global eg (unhex k) ag [] sink (i + 1) with
+                | some inner, some outer =>
+                  let tr := if global.isNone then [MEv.panic] else [MEv.eval 0, MEv.eval 1] ++ inner.drop 2 ++ outer.drop 2
+                  let m := joinWith "," (tr.map fmtEv)
+                  let v' := match v with
+                    | some x => some x
+                    | none =>
+                      if o == m then none
+                      else if global.isNone then some ("C17", "no panic (or arguments evaluated) although no global client is set")
+                      else some ("C17", "a macro invocation inside an argument expression, or the invocation around it, did not send what the tagged quiet call sends")
+                  go (i + 1) is' os' (m :: mp) v' ("nested" :: tg) global
+                | _, _ => badCase
+              | _, _ => badCase
+            | _, _ => badCase
           | [e, k, vS, tp, s] =>
             match entryOf e, parsePairs tp with
             | some entry, some pairs =>
